@@ -7,15 +7,6 @@ From Proofs Require Import TxnBase TxnFoot TxnFrame TxnInv.
 Import ListNotations.
 Open Scope Z_scope.
 
-(* ------------------------------------------------------------------ del_attrs *)
-Lemma del_attrs_all vals :
-  forallb (fun v => match v with None => false | Some _ => true end) vals = true ->
-  del_attrs vals = (map (fun _ => None) vals, true).
-Proof.
-  induction vals as [|[v|] vals IH]; cbn; intros H; auto; [|discriminate].
-  rewrite (IH H). reflexivity.
-Qed.
-
 Lemma forallb_none_map {X} (l : list X) :
   forallb (fun v : option val => match v with None => true | Some _ => false end) (map (fun _ => None) l) = true.
 Proof. induction l; cbn; auto. Qed.
@@ -106,18 +97,13 @@ Lemma so_expire_eq sd o s :
   so_expire cfg sd o s =
    let i := get_inst s sd o in
    if i_expired i then (Ret tt, s) else
-   let '(vals', ok) := del_attrs (i_vals i) in
-   let s1 := with_heap s sd (set_nth o (i_with_vals i vals') (heap (cn s sd))) in
-   if ok then
-     let s2 := with_heap s1 sd (set_nth o (i_with_expired (get_inst s1 sd o) true) (heap (cn s1 sd))) in
-     cache_expire cfg sd (i_id i) s2
-   else (Raise EAttribute, s1).
+   let s1 := with_heap s sd (set_nth o (i_with_vals i (map (fun _ => None) (i_vals i))) (heap (cn s sd))) in
+   let s2 := with_heap s1 sd (set_nth o (i_with_expired (get_inst s1 sd o) true) (heap (cn s1 sd))) in
+   cache_expire cfg sd (i_id i) s2.
 Proof.
   unfold so_expire, bind, gets. cbv beta iota zeta.
   destruct (i_expired (get_inst s sd o)); [reflexivity|].
-  destruct (del_attrs (i_vals (get_inst s sd o))) as [v ok].
-  unfold upd_inst, modify. cbv beta iota zeta.
-  destruct ok; reflexivity.
+  unfold upd_inst, modify. cbv beta iota zeta. reflexivity.
 Qed.
 Lemma cache_expire_eq sd id s :
   cache_expire cfg sd id s =
@@ -132,7 +118,6 @@ Qed.
 Lemma so_expire_step sd o s :
   (o < length (heap (cn s sd)))%nat ->
   let i := get_inst s sd o in
-  (i_expired i = true \/ all_vals i = true) ->
   exists s', so_expire cfg sd o s = (Ret tt, s') /\
     Rexp sd s s' /\
     (forall o', o' <> o -> get_inst s' sd o' = get_inst s sd o') /\
@@ -144,12 +129,10 @@ Lemma so_expire_step sd o s :
          c_weak (cch s' sd) = assoc_remove (i_id i) (c_weak (cch s sd))) \/
         (c_strong (cch s' sd) = c_strong (cch s sd) /\ c_weak (cch s' sd) = c_weak (cch s sd)))).
 Proof.
-  intros Ho i Hg. rewrite so_expire_eq. cbv zeta. fold i.
+  intros Ho i. rewrite so_expire_eq. cbv zeta. fold i.
   destruct (i_expired i) eqn:Ee.
   - exists s. repeat split; auto using Rexp_refl. discriminate.
-  - destruct Hg as [Hg|Hg]; [discriminate|].
-    unfold all_vals in Hg. rewrite (del_attrs_all _ Hg).
-    set (i1 := i_with_vals i (map (fun _ => None) (i_vals i))).
+  - set (i1 := i_with_vals i (map (fun _ => None) (i_vals i))).
     set (h1 := set_nth o i1 (heap (cn s sd))).
     set (s1 := with_heap s sd h1).
     assert (G1 : get_inst s1 sd o = i1).
@@ -215,13 +198,11 @@ Definition visited (s : st) (sd : side) (ids : list Z) (o : nat) : Prop :=
 
 Lemma expire_ids_spec sd : forall ids s,
   cache_ok s sd ->
-  (forall id o, In id ids -> try_get cfg s sd id = Some o ->
-                i_expired (get_inst s sd o) = true \/ all_vals (get_inst s sd o) = true) ->
   exists s', expire_ids cfg sd ids s = (Ret tt, s') /\ Rexp sd s s' /\ cache_ok s' sd /\
     (forall o, visited s sd ids o -> i_expired (get_inst s sd o) = false -> no_vals (get_inst s' sd o) = true) /\
     (forall o, ~ visited s sd ids o -> get_inst s' sd o = get_inst s sd o).
 Proof.
-  induction ids as [|id rest IH]; intros s Hc Hg.
+  induction ids as [|id rest IH]; intros s Hc.
   - exists s. cbn. split; [reflexivity|]. split; [apply Rexp_refl|]. split; [exact Hc|]. split.
     + intros o [id [[] _]].
     + reflexivity.
@@ -229,7 +210,7 @@ Proof.
     destruct (try_get cfg s sd id) as [o1|] eqn:Et.
     + (* an instance is found and expired *)
       pose proof (try_get_known s sd id o1 Hc Et) as [Hb Hid].
-      destruct (so_expire_step sd o1 s Hb (Hg id o1 (or_introl eq_refl) Et)) as (s1 & E1 & R1 & F1 & X1 & Y1).
+      destruct (so_expire_step sd o1 s Hb) as (s1 & E1 & R1 & F1 & X1 & Y1).
       unfold bind at 1. rewrite E1.
       assert (Hc1 : cache_ok s1 sd).
       { pose proof (ok_so_expire cfg sd o1 s Hc) as H. rewrite E1 in H. exact H. }
@@ -243,16 +224,7 @@ Proof.
             destruct (try_get_purge s s1 sd id Hc Rs P1 P2) as [Q1 Q2]. split; auto.
           + destruct R1 as (Rs & _). split; [intros; apply try_get_same; auto|]. right. rewrite <- Et. apply try_get_same; auto. }
       destruct T as [T1 T2].
-      assert (Hg1 : forall id2 o, In id2 rest -> try_get cfg s1 sd id2 = Some o ->
-                      i_expired (get_inst s1 sd o) = true \/ all_vals (get_inst s1 sd o) = true).
-      { intros id2 o Hin Ht2.
-        destruct (Nat.eq_dec o o1) as [->|Hne].
-        - destruct (i_expired (get_inst s sd o1)) eqn:Ee; [rewrite (X1 eq_refl); auto|].
-          left. apply (Y1 eq_refl).
-        - rewrite (F1 o Hne). destruct (Z.eq_dec id2 id) as [->|Hne2].
-          + destruct T2 as [T2|T2]; rewrite T2 in Ht2; [discriminate|]. inversion Ht2. congruence.
-          + apply (Hg id2 o); [right; exact Hin|]. rewrite <- T1 by exact Hne2. exact Ht2. }
-      destruct (IH s1 Hc1 Hg1) as (s' & E' & R' & C' & V' & N').
+      destruct (IH s1 Hc1) as (s' & E' & R' & C' & V' & N').
       exists s'. split; [exact E'|]. split; [eapply Rexp_trans; eauto|]. split; [exact C'|]. split.
       * intros o [id2 [Hin Ht2]] Hexp.
         destruct (Nat.eq_dec o o1) as [->|Hne].
@@ -272,10 +244,7 @@ Proof.
         -- exists id2. split; [right; exact Hin|]. rewrite <- T1 by exact Hne2. exact Ht2.
     + (* nothing cached under this id *)
       unfold bind at 1. cbn.
-      assert (Hg1 : forall id2 o, In id2 rest -> try_get cfg s sd id2 = Some o ->
-                      i_expired (get_inst s sd o) = true \/ all_vals (get_inst s sd o) = true)
-        by (intros id2 o Hin; apply Hg; right; exact Hin).
-      destruct (IH s Hc Hg1) as (s' & E' & R' & C' & V' & N').
+      destruct (IH s Hc) as (s' & E' & R' & C' & V' & N').
       exists s'. split; [exact E'|]. split; [exact R'|]. split; [exact C'|]. split.
       * intros o [id2 [Hin Ht2]] Hexp. apply V'; [|exact Hexp].
         destruct Hin as [->|Hin]; [congruence|]. exists id2. auto.
